@@ -52,7 +52,7 @@ Definition repaired_par_request_class : bool := true.
 (* par-jwt-audience - the pushed authorization endpoint accepts a client assertion addressed to the issuer
    (allowed_targets gets the issuer, as RFC 9126 asks).
    Repair: par-issuer-audience.diff *)
-Definition repaired_par_issuer_audience : bool := false.
+Definition repaired_par_issuer_audience : bool := true.
 
 (* byref-nonce-missing / byref-consent-missing - a request passed by request_uri / PAR is verified after the
    request object has been merged in, not on the front-channel stub.
@@ -62,7 +62,7 @@ Definition repaired_byref : bool := true.
 (* idt-exp-unrecorded - a token minted at the authorization endpoint without a usage rule (the ID Token) gets
    the token handler's lifetime as expires_at.
    Repair: idt-exp-recorded.diff *)
-Definition repaired_idt_exp : bool := false.
+Definition repaired_idt_exp : bool := true.
 
 Record cfg := mkCfg {
   c_rt : pystr;                          (* response_type *)
